@@ -107,7 +107,58 @@ def r10_3(ctx):
     ctx.ob("R10.3", "incomplete-stored-only-when-input-ran-out", bad is None, "self.incomplete is set only on the NotEnoughInput / Incomplete edges" if bad is None else "self.incomplete is stored on %s" % bad)
 
 
+def r10_6(ctx):
+    """encoding_rs feature: LossyDecoder's EncodingRs arm and decode_to_sink (analysed in the all-features pass only)"""
+    n = 0
+    key, pcs = nfq.cells(ctx, AREA, "stream::LossyDecoder<Sink,A>[TendrilSink<fmt::Bytes,A>]::finish", exact=True)
+    for pc in nfq.feasible(pcs):
+        if not any(v and "EncodingRs" in g for g, v in pc["guards"].items()):
+            continue
+        t = nfq.texts(pc)
+        n += 1
+        ok = len(t) == 2 and re.fullmatch(r"call decode_to_sink\(new\(\),self\.inner\.0,self\.inner\.1,true\)", t[0]) is not None and t[1].startswith("self.inner.1.finish(")
+        ctx.ob("R10.6", "finish-flushes-pending-then-finishes", ok, "finish() decodes the empty input with last = true, then finishes the sink" if ok else "finish() does %s" % t, "tendril stream LossyDecoder::finish")
+    key, pcs = nfq.cells(ctx, AREA, "stream::LossyDecoder<Sink,A>[TendrilSink<fmt::Bytes,A>]::process", exact=True)
+    for pc in nfq.feasible(pcs):
+        if not any(v and "EncodingRs" in g for g, v in pc["guards"].items()):
+            continue
+        t = nfq.texts(pc)
+        n += 1
+        empty = pc["guards"].get("p1.is_empty()")
+        ok = (empty is True and t == []) or (empty is not True and t == ["call decode_to_sink(p1,self.inner.0,self.inner.1,false)"])
+        ctx.ob("R10.6", "process-decodes-not-last/%s" % ("empty" if empty else "non-empty"), ok, "process() hands the chunk to decode_to_sink with last = false" if ok else "process() does %s" % t, "tendril stream LossyDecoder::process")
+    key, pcs = nfq.cells(ctx, AREA, "stream::decode_to_sink")
+    bad = None
+    k = 0
+    for pc in nfq.feasible(pcs):
+        t = nfq.texts(pc)
+        g = pc["guards"]
+        k += 1
+        mal = any(v and "matches Malformed(" in x for x, v in g.items())
+        errs = [i for i, x in enumerate(t) if re.match(r"φ\(p3\)\.error\(", x)]
+        reps = [i for i, x in enumerate(t) if re.match(r"φ\(p3\)\.process\(from_slice\(", x) and _is_rep(x)]
+        if mal != (len(errs) == 1) or len(errs) != len(reps) or any(r != e + 1 for e, r in zip(errs, reps)):
+            bad = "malformed=%s but errors at %s and replacement characters at %s" % (mal, errs, reps)
+        for i, x in enumerate(t):
+            if "reinterpret_without_validating" in x and not re.search(r"new\(\)\.subtendril\(0,\(φ\(p2\)\.decode_to_utf8_without_replacement\(φ\(p1\),new\(\),p4\)\.2 as u32\)\)\.reinterpret_without_validating\(\)", x):
+                bad = "reinterprets something other than the written prefix of the output buffer: " + x[:160]
+            if ".pop_front(" in x and not re.fullmatch(r"φ\(p1\)\.pop_front\(\(φ\(p2\)\.decode_to_utf8_without_replacement\(φ\(p1\),new\(\),p4\)\.1 as u32\)\)", x):
+                bad = "input advances by something other than bytes_read: " + x[:160]
+        inp_empty = any(v and "matches InputEmpty" in x for x, v in g.items())
+        pops = any(".pop_front(" in x for x in t)
+        returns = not any(x.startswith("loop-end(end)") or x.startswith("loop-end(continue)") for x in t)
+        if not inp_empty and not pops:
+            bad = "a path that did not exhaust the input leaves it unadvanced"
+        if returns and not inp_empty and g.get("φ(p1).is_empty()") is not True:
+            bad = "the loop is left although input remains and the decoder did not report InputEmpty"
+    ctx.ob("R10.6", "decode_to_sink-discipline", bad is None and k >= 8, bad or "%d paths: one error + U+FFFD per Malformed, only the written prefix reinterpreted, input advanced by bytes_read, loop left only on InputEmpty or empty input" % k, "tendril stream decode_to_sink")
+    ctx.floor("R10.6", "encoding-rs-facts", n + k, 11)
+
+
 def run(ctx):
+    if ctx.config == "all-features":
+        ctx.rule("R10.6", "encoding_rs feature: LossyDecoder flushes with last = true at finish, pairs each error with one U+FFFD, reinterprets only decoder-written UTF-8, advances by bytes_read")
+        ctx.guard("R10.6", "encoding_rs", lambda: r10_6(ctx))
     ctx.rule("R10.1", "every U+FFFD sent to the inner sink is immediately preceded by exactly one error() and vice versa (process, finish, completion closure)")
     ctx.rule("R10.2", "reinterpret_without_validating only on the decode-Ok chunk or on subtendril(0, valid_prefix.len())")
     ctx.rule("R10.3", "finish reports a pending incomplete sequence iff one is stored; process stores one only when input ran out")
